@@ -1244,6 +1244,7 @@ def forwarding(rep, model):
     # ---- DiscretizedSpace.element -----------------------------------------
     _element(rep, model)
     deform(rep, model)
+    deform_alias(rep, model)
 
 
 class EH(Hooks):
@@ -1424,6 +1425,58 @@ class DI(Interp):
                     return
                 raise Undecided('store into the point array at %r' % (idx,))
         return Interp.assign(self, t, v, scope, func)
+
+
+def deform_alias(rep, model):
+    """R6a: the deformation operators (domain = range) evaluate the
+    interpolation of the template before anything is written to `out`:
+    under `out is <input>` no array kernel may receive the shared buffer as
+    its input and as its output, and no read of the input may follow the
+    first write (effect / alias dataflow with one shared cell)."""
+    from ..effects import Analyzer
+    LD = 'odl/deform/linearized.py'
+    n = 0
+    for cn in ('LinDeformFixedDisp', 'LinDeformFixedTempl'):
+        ci = model.get(cn)
+        if ci is None or '_call' not in ci.methods:
+            raise AnalysisError('anchor vanished: %s._call' % cn)
+        fn = ci.methods['_call']
+        xn = [p.arg for p in fn.args.args][1]
+        cons = '%s._call[out is %s]' % (cn, xn)
+        n += 1
+        try:
+            an = Analyzer(model, ci, fn, {xn: 'X', 'out': 'OUT'},
+                          {'out is None': False, 'out is not None': True},
+                          alias_mode=True)
+            probs = []
+            for p in an.run():
+                if p.raised:
+                    continue
+                for ln, txt in p.alias_kernel:
+                    probs.append('`%s` (line %d) hands the shared buffer '
+                                 'to the kernel as input and as output'
+                                 % (txt, ln))
+                clob = None
+                for e in p.events:
+                    if e.kind in ('W', 'PW', 'RMW') and clob is None:
+                        clob = e
+                    elif clob is not None and e.kind == 'R' and \
+                            e.via == xn and e.stmt_id != clob.stmt_id:
+                        probs.append('`%s` (line %d) reads the input after '
+                                     '`%s` has written the shared buffer'
+                                     % (e.text, e.line, clob.text))
+                if p.unknown:
+                    raise Undecided('buffer handed to an unknown callee: %s'
+                                    % p.unknown[0][1])
+            if probs:
+                rep.violation('R6a', cons, '; '.join(sorted(set(probs))[:2]),
+                              LD, fn.lineno)
+            else:
+                rep.holds('R6a', cons, 'the interpolated values exist '
+                          'before out is written')
+        except Undecided as e:
+            rep.undecided('R6a', cons, str(e), LD, fn.lineno)
+    rep.floor('R6a', 'deformation operators', n, 2)
 
 
 def deform(rep, model):
